@@ -121,6 +121,17 @@ def r3(ctx):
     reinflate_symmetry(ctx)
 
 
+def mrf_update_site(ana):
+    """(function that stores train_inverse after a solve, its model symbol, its optimiser-result symbol or None).
+    The update helper on the reference tree; the gather phase itself when the helper was folded into it."""
+    try:
+        upd = ana.func(GL + "_update_cluster_covariances")
+        return upd, Sym(upd.params[0]), Sym(upd.params[2])
+    except AnalysisError:
+        cons = ana.func(GL + "_retrieve_optimization_results")
+        return cons, Sym(cons.params[0]), None
+
+
 @rule("C03", "R4", "CMP", "the small-entry filter zeroes exactly |x| < eps on the matrix that becomes the MRF, with the user's eps", floor=6)
 def r4(ctx):
     ana = ctx.ana
@@ -159,7 +170,7 @@ def r4(ctx):
     ctx.check(vals == want, fi, "the filter works on numpy.copy(array) or, in in-place mode, on the array itself", role="filter:operand",
               expected="np.copy(array) | array", found=", ".join(sorted(vals)))
     # call chain: train_inverse := filter(reinflate(result), arguments.min_meaningful_covariance, copy=False)
-    upd = ana.func(GL + "_update_cluster_covariances")
+    upd, m, res = mrf_update_site(ana)
     try:
         inline_only = {ana.func(GL + "_reconstruct_optimized_matrix").qualname}
     except AnalysisError:
@@ -167,13 +178,15 @@ def r4(ctx):
     bu = ana.builder(upd, no_inline=lambda f: f.qualname not in inline_only)
     st = [s2 for s2 in bu.stores() if s2.attr == "train_inverse"]
     if len(st) != 1:
-        raise AnalysisError("_update_cluster_covariances does not assign train_inverse exactly once")
+        raise AnalysisError(f"{short(upd.qualname)} does not assign train_inverse exactly once")
     v = st[0].value
-    m = Sym(upd.params[0])
-    res = Sym(upd.params[2])
     ok = isinstance(v, App) and v.fn == fi.qualname and len(v.args) >= 2
     if ok:
-        ok_arr = isinstance(v.args[0], App) and v.args[0].fn.endswith("matrix_compression.reinflate_matrix") and v.args[0].args == (res,)
+        ra = v.args[0].args if isinstance(v.args[0], App) and v.args[0].fn.endswith("matrix_compression.reinflate_matrix") else ()
+        # the optimiser result: the update helper's parameter, or (helper folded into the gather) <task>.get().theta
+        is_result = len(ra) == 1 and (ra[0] == res if res is not None else
+                                      (isinstance(ra[0], Attr) and ra[0].name == "theta" and isinstance(ra[0].base, App) and ra[0].base.fn in (".get", ".result")))
+        ok_arr = is_result
         ok_eps = v.args[1] == Attr(Attr(m, "arguments"), "min_meaningful_covariance")
         ctx.check(ok_arr, upd, "the filter is applied to the freshly reinflated optimiser result (so in-place mode touches no caller data)",
                   role="filter:applied-to", expected=f"reinflate_matrix({res})", found=str(v.args[0])[:100])
@@ -194,7 +207,7 @@ def r4(ctx):
 def r5(ctx):
     ana = ctx.ana
     # site 1: MRF update
-    upd = ana.func(GL + "_update_cluster_covariances")
+    upd, _m, _res = mrf_update_site(ana)
     bu = ana.builder(upd, no_inline=ana.known)
     ti = [s for s in bu.stores() if s.attr == "train_inverse"]
     ld = [s for s in bu.stores() if s.attr == "log_determinant"]
